@@ -56,7 +56,7 @@ def expansion_bound(text: str) -> int:
         return 10 ** 9
 
 
-def check_text(out: Outcome, text: str, sub, assemble=True, known_bound=None):
+def check_text(out: Outcome, text: str, sub, assemble=True, known_bound=None, filename="soup.s"):
     from a816.parse.mzparser import MZParser
     from a816.program import Program
 
@@ -64,7 +64,7 @@ def check_text(out: Outcome, text: str, sub, assemble=True, known_bound=None):
     cpu = 20.0 + len(text) / 500.0  # CPU seconds: the unchanged assembler needs milliseconds for these inputs
     w = watchdog.Watchdog(budget(text), cpu_seconds=cpu)
     with driver.quiet():
-        st_, val = w.run(MZParser.parse_as_ast, text, "soup.s")
+        st_, val = w.run(MZParser.parse_as_ast, text, filename)
     out.evals += 1
     if st_ == "budget":
         out.bad("parse:" + _shape(text), sub, f"scan/parse of {len(text)} characters exceeded {budget(text)} line events (no termination in bounded steps): {text[:120]!r}")
@@ -83,7 +83,7 @@ def check_text(out: Outcome, text: str, sub, assemble=True, known_bound=None):
 
         def run():
             p = Program()
-            return p.assemble_string_with_emitter(text, "soup.s", driver.RecordingWriter())
+            return p.assemble_string_with_emitter(text, filename, driver.RecordingWriter())
 
         with driver.quiet():
             st2, val2 = w2.run(run)
@@ -139,6 +139,10 @@ def structured_inputs(d: int):
         ins.append((f"text-escape-long:{n}", org + ".table 't15.tbl'\n.text 'ab[0x" + "a1" * (n // 2) + "]b'\n"))
     ins.append(("text-many-open-brackets", org + ".table 't15.tbl'\n.text '" + "[0x" * d + "'\n"))
     ins.append(("text-long-string", org + ".table 't15.tbl'\n.text '" + "abc[0x41]" * (4 * d) + "'\n"))
+    for where in ("relative", "nested", "absolute"):
+        for j, d_ in enumerate((".include 'no_such_file_zz.s'", ".incbin 'no_such_file_zz.bin'", ".table 'no_such_file_zz.tbl'", ".include_ips 'no_such_file_zz.ips', 0",
+                                ".include 'sub/dir/no_such_file_zz.s'", ".include '../no_such_file_zz.s'")):
+            ins.append((f"missing-file:{where}|{j}", org + d_ + "\n.db 1\n"))
     ins.append(("struct-with-comments", org + ".struct st_x {\n" + "; c\n" * d + "}\n"))
     ins.append(("struct-empty", org + ".struct st_y {\n}\n.struct st_z {\n/* c */\n}\n"))
     ins.append(("struct-unclosed", org + ".struct st_w {\n; c\n" * min(d, 8)))
@@ -321,9 +325,12 @@ def run_case(case) -> Outcome:
     if t == "structured":
         nt = 0
         driver.write_files({"t15.tbl": "01=a\n02=b\n03=ab\n0405=abc\n"})
+        deep_dir = os.path.join(driver.workdir(), "a", "b", "c", "d")
         for name, text in structured_inputs(case["depth"]):
             kb = int(name.rsplit("bound=", 1)[1]) if "bound=" in name else None  # iteration count known by construction
-            if check_text(out, text, {"t": "text", "text": text, "known_bound": kb}, known_bound=kb):
+            # files that are looked for and not found: the source may be known under a relative, a nested or an absolute name
+            fn = {"missing-file:relative": "soup.s", "missing-file:nested": "a/b/c/soup.s", "missing-file:absolute": os.path.join(deep_dir, "soup.s")}.get(name.split("|")[0], "soup.s")
+            if check_text(out, text, {"t": "text", "text": text, "known_bound": kb, "filename": fn}, known_bound=kb, filename=fn):
                 nt += 1
             nt += 0
         out.nontrivial = len(structured_inputs(case["depth"]))
@@ -332,7 +339,7 @@ def run_case(case) -> Outcome:
         return out
     if t == "text":
         text = case["text"]
-        nt = check_text(out, text, case, known_bound=case.get("known_bound"))
+        nt = check_text(out, text, case, known_bound=case.get("known_bound"), filename=case.get("filename", "soup.s"))
         out.nontrivial = bool(nt) or _open_ended(text)
         out.labels.append("soup")
         if _open_ended(text):
